@@ -248,6 +248,15 @@ def run_tool(cmd_prefix, case_lines, workdir, tag, env=None, timeout=1800):
     return res, problems
 
 
+def posix_tz(off):
+    """TZ value for a fixed offset of `off` seconds east of UTC (POSIX inverts the sign)"""
+    if off == 0:
+        return "UTC"
+    sign = "-" if off > 0 else "+"
+    a = abs(off)
+    return "VTZ%s%02d:%02d:%02d" % (sign, a // 3600, a % 3600 // 60, a % 60)
+
+
 def split_ghost(text):
     obs, _, ghost = text.partition(" # ")
     return obs.strip(), ghost.strip()
